@@ -70,6 +70,45 @@ theorem loop_limited_sleeps : ∀ (script : List Attempt) (tries : Nat) (sleeps 
           omega
         · cases heq
 
+/-- `delayMs` within its bounds (base 1000, max 60000) -/
+def InBounds (tries d : Nat) : Prop :=
+  min (defaultBase * 2 ^ (min tries 30) / 2) defaultMax ≤ d ∧ d ≤ min (defaultBase * 2 ^ (min tries 30)) defaultMax
+
+theorem delayMs_inBounds (tries r : Nat) : InBounds tries (delayMs tries defaultBase defaultMax r) := by
+  unfold InBounds delayMs
+  have h1 : r % (defaultBase * 2 ^ (min tries 30) / 2 + 1) < defaultBase * 2 ^ (min tries 30) / 2 + 1 := Nat.mod_lt _ (by omega)
+  have h2 : defaultBase * 2 ^ (min tries 30) / 2 * 2 ≤ defaultBase * 2 ^ (min tries 30) := Nat.div_mul_le_self _ _
+  simp only []
+  generalize defaultBase * 2 ^ (min tries 30) = c at *
+  generalize r % (c / 2 + 1) = d at *
+  omega
+
+/-- the loop keeps "one sleep per failure so far, each within the bounds of its try number" -/
+theorem loop_sleeps_bounded : ∀ (script : List Attempt) (tries : Nat) (sleeps : List Nat), sleeps.length = tries →
+    (∀ j x, sleeps[j]? = some x → InBounds (j + 1) x) →
+    ∀ i d, (loop tries sleeps script).sleeps[i]? = some d → InBounds (i + 1) d := by
+  intro script
+  induction script with
+  | nil => intro tries sleeps _ hs i d h; exact hs i d (by simpa [loop, Result.sleeps] using h)
+  | cons a rest ih =>
+    intro tries sleeps hl hs i d h
+    cases a with
+    | ok v => exact hs i d (by simpa [loop, Result.sleeps] using h)
+    | fail e r =>
+      simp only [loop] at h
+      split at h
+      · exact hs i d (by simpa [Result.sleeps] using h)
+      · refine ih (tries + 1) (sleeps ++ [delayMs (tries + 1) defaultBase defaultMax r]) (by simp [hl]) ?_ i d h
+        intro j x hx
+        by_cases hj : j < sleeps.length
+        · rw [List.getElem?_append_left hj] at hx; exact hs j x hx
+        · have : j = sleeps.length := by
+            have := (List.getElem?_eq_some_iff.mp hx).1
+            simp at this; omega
+          subst this
+          simp at hx; subst hx
+          rw [hl]; exact delayMs_inBounds (tries + 1) r
+
 /-- the sleeps of a run of retryable failures starting after `start` failures -/
 def sleepsOf (start : Nat) : List (Exc × Nat) → List Nat
   | [] => []
